@@ -161,7 +161,16 @@ def run(chk):
            any(x not in common_set for x in cw) or any(x not in dict_set for x in dw):
             raise vlib.Machinery("window does not represent the lists for %r" % pw)
 
-    mism, lower = evaluate(chk, recs)
+    try:
+        mism, lower = evaluate(chk, recs)
+    except vlib.Machinery as e:
+        if proof_ok:
+            raise
+        # the development does not build against this tree (e.g. the translator
+        # rejects it): the model cannot be evaluated; the reference rule list
+        # still judges every observed result
+        mism, lower = [], []
+        chk.coverage["model_not_evaluable"] = str(e)[-500:]
     kinds = {}
     results = {}
     for r in recs:
